@@ -36,6 +36,7 @@ func (handlerSelf *HandlerDef) Post(fn func()) {
 	defer func() {
 		recover()
 	}()
+	verifPoint("handler.post.afterClosedCheck")
 
 	handlerSelf.ch <- fn
 }
@@ -43,6 +44,7 @@ func (handlerSelf *HandlerDef) Post(fn func()) {
 // Close Close the Handler
 func (handlerSelf *HandlerDef) Close() {
 	handlerSelf.isClosed.Set(true)
+	verifPoint("handler.close.afterFlag")
 
 	close(handlerSelf.ch)
 }
